@@ -556,6 +556,11 @@ pub mod log {
 #[cfg(feature = "public_auditing")]
 pub mod local_auditing;
 
+/// Verification hooks (compiled only with `--cfg facebook_akd_verif`): public access to
+/// crate-private pure operations, used by an external conformance harness.
+#[cfg(facebook_akd_verif)]
+pub mod verif_hooks;
+
 pub use akd_core::{
     configuration, configuration::*, ecvrf, hash, hash::Digest, proto, types::*, verify,
     verify::history::HistoryParams, ARITY,
